@@ -98,7 +98,7 @@ service {
   method { name: "Idem" input_type: ".verif.v1.Msg" output_type: ".verif.v1.Msg"
     options { idempotency_level: IDEMPOTENT } }
   method { name: "Query" input_type: ".verif.v1.Msg" output_type: ".verif.v1.Msg"
-    options { idempotency_level: NO_SIDE_EFFECTS [google.api.http] { get: "/v1/query" response_body: "child" } } }
+    options { idempotency_level: NO_SIDE_EFFECTS [google.api.http] { get: "/v1/query" response_body: "child" additional_bindings { put: "/v1/query" response_body: "child" } } } }
   method { name: "Kids" input_type: ".verif.v1.Msg" output_type: ".verif.v1.Msg"
     options { [google.api.http] { post: "/v1/kids" body: "kids" response_body: "kids" } } }
   method { name: "Tags" input_type: ".verif.v1.Msg" output_type: ".verif.v1.Msg"
